@@ -30,9 +30,9 @@ type ctxLike interface {
 type pipeSt struct {
 	n         int
 	vp        *vt.Pipe
-	id        uint32 // mangos pipe id (first header word in raw mode)
-	dropped   bool // drop initiated (set before the close: "open" is never claimed late)
-	dropDone  bool // drop has taken effect (set after the close: "gone" is never claimed early)
+	id        uint32    // mangos pipe id (first header word in raw mode)
+	dropped   bool      // drop initiated (set before the close: "open" is never claimed late)
+	dropDone  bool      // drop has taken effect (set after the close: "gone" is never claimed early)
 	cursor    int       // send-log scan position
 	reqs      []*reqSt  // requests injected on this pipe, in order
 	flushSeen bool      // scratch for flush rounds
@@ -66,7 +66,7 @@ type answerSt struct {
 	seen        int
 	bogus       string // raw mode: class of a reply that must vanish ("" = regular)
 	final       bool
-	afterFailed bool   // Send after a failed Recv (pending-ness is implementation-defined)
+	afterFailed bool // Send after a failed Recv (pending-ness is implementation-defined)
 }
 
 type rig struct {
